@@ -30,6 +30,8 @@ Inductive case :=
 (* what arrived on the client's control connection (instant, message, how long its handler's body took: for
    ReqWorkConn the observed duration of the hanging dial), and when the client closed the session *)
 | CCliStarve (iv T : Z) (arrivals : list carrival) (closed_at until slack : Z)
+(* the session's remote port could be bound again [released_after] ms after the close (-1: not within the probe window) *)
+| CRelease (closed_at released_after bound : Z)
 (* gaps (ms) between consecutive failed login attempts of one loopLoginUntilSuccess(max_interval) *)
 | CLoginGaps (max_interval : Z) (gaps : list Z) (slack : Z).
 
@@ -221,14 +223,23 @@ Definition check_case (c : case) : Z :=
           if negb (first_delay =? fo_duration o) then 24 else check_until sliding o st its finished
       end
   | CDefaults tcpmux i t srv_t cli_i cli_t =>
-      if negb (gen_hb_server_default tcpmux t =? srv_t) then 11
-      else if negb (fst (gen_hb_client_default tcpmux i t) =? cli_i) then 12
-      else if negb (snd (gen_hb_client_default tcpmux i t) =? cli_t) then 13
+      (* against the documented defaults (Model/Heartbeat.v), not the regenerated functions: those follow the
+         source, and their agreement with the documented behaviour is what this case observes *)
+      if negb (hb_server_default tcpmux t =? srv_t) then 11
+      else if negb (fst (hb_client_default tcpmux i t) =? cli_i) then 12
+      else if negb (snd (hb_client_default tcpmux i t) =? cli_t) then 13
+      else if negb (gen_hb_server_default tcpmux t =? srv_t) then 14
+      else if negb (fst (gen_hb_client_default tcpmux i t) =? cli_i) then 15
+      else if negb (snd (gen_hb_client_default tcpmux i t) =? cli_t) then 16
       else 0
   | CSrvWatch T pings invalid closed_at until slack => check_srv_watch T pings invalid closed_at until slack
   | CCliWatch iv T pongs pe closed_at until slack => check_cli_watch iv T pongs pe closed_at until slack
   | CRelogin ef cfg evs sessions alive => check_relogin ef cfg evs sessions alive
   | CCliStarve iv T arrivals closed_at until slack => check_cli_starve iv T arrivals closed_at until slack
+  | CRelease closed_at released_after bound =>
+      if closed_at <? 0 then 80
+      else if released_after <? 0 then 81        (* torn down on the wire but its resources never released *)
+      else if bound <? released_after then 82 else 0
   | CLoginGaps mx gaps slack =>
       match bu_start (gen_login_opts mx) 0 0 with
       | Some st => check_gaps (gen_login_opts mx) st st gaps slack
